@@ -61,8 +61,6 @@ func (m MCase) padded() []Range {
 				q.Free += "."
 			}
 			q.Free += strings.Repeat("0", z)
-		} else if q.Tail != "" && q.Milli > 0 && q.Milli < 1000 {
-			q.Tail += strings.Repeat("0", z)
 		} else {
 			q.Pad += z
 		}
@@ -190,7 +188,7 @@ func GenMeta(t *rapid.T) MCase {
 		m.Base = Gen(t)
 	}
 	if len(m.Base.Ranges) == 0 {
-		r := Range{Type: "*", Sub: "*", HasQ: true, Q: genQ(t, genMilli(t))}
+		r := Range{Type: "*", Sub: "*", HasQ: true, Q: newQCtx().genQ(t, genMilli(t))}
 		if m.Enc {
 			r.Sub = ""
 		}
